@@ -115,6 +115,7 @@ package handler
 //@ func TimeoutHandler closure 0
 //@   property C04
 //@   ensures implies(duration <= 0, result == next)
+//@   ensures implies(duration > 0, typeIs(result, *timeoutHandler) && result.(*timeoutHandler).dt == duration && result.(*timeoutHandler).handler == next)
 
 // ---------------------------------------------------------------------------------------------
 // C18 authentication gates. `served` counts calls of the protected handler; unauths counts 401 responses.
